@@ -321,8 +321,10 @@ def create_for_folder_subcommand(
 
     if detect_renaming:
         found_file_paths = set()
-        for new_path in new_paths:
-            for not_found_path in not_found_paths:
+        # both are sets of absolute paths: iterate them in sorted order, so that the result does not depend on the
+        # location of the root (when several paths carry the same hash the last match sets the previous path)
+        for new_path in sorted(new_paths):
+            for not_found_path in sorted(not_found_paths):
                 # find hashes to not_found_path and new_path
                 not_found_path_history, relative_not_found_path = existing_history.find_history_for_path(
                     existing_history.get_relative_file_path(not_found_path)
